@@ -9,7 +9,7 @@ the numerator is >= 1 (it is not ⌈n/d⌉ for n <= 0 under truncating division)
 2^SF * 10^6 / BW. Does not decide value equality with the formula for all inputs."""
 from ..runner import Result, CheckError
 from .. import absint_run, rules, flow
-from ..rules import term_of_operand, term_of_local, term_str, defs_with_conditions, cond_true, cond_false, param_by_name
+from ..rules import term_of_operand, term_of_local, term_str, defs_with_conditions, cond_true, cond_false, param_by_name, callee_name
 from .common import ctx, short_site
 
 PID = 'C16'
@@ -70,6 +70,7 @@ def run(tier):
     mono_rule(c, res)
     # (d) symbol time shape
     tsym_shape(c, res)
+    formula_shape(c, res)
     res.coverage.update({'obligations_in_scope': n_obl, 'discharged_in_scope': n_ok, 'caller_argument_preconditions': args_assumed,
                          't_sym_us_invariant': list(tinv[:2]), 'div_ceil_call_probes': probes, 'configs': [c.info]})
     res.explanation = __doc__
@@ -258,6 +259,156 @@ def mono_rule(c, res):
         dep = [term_str(x[0]) for x in cs if mono(x[0]) != CONST]
         res.require(m in (UP, CONST) and not dep, 'C16:time_on_air_us:not-monotone', 'time on air is not provably non-decreasing in the payload length (%s; len-dependent branch: %s): %s'
                     % (m, dep, term_str(t)[:200]), short_site(bf, bb), 'MONOTONE(len)', instance='return expression at bb%d is non-decreasing in len' % bb)
+
+
+def formula_shape(c, res):
+    """the LoRa time-on-air formula (Semtech AN1200.13 / SX127x datasheet 4.1.1.7), as integer arithmetic in microseconds:
+       n_payload = 8 + max(ceil((8 PL - 4 SF + 28 + 16 - 20 H) / (4 (SF - 2 DE))), 0) * CRdenom
+       T = ((4 n_preamble + 17) + 4 n_payload) * T_sym / 4      (preamble given),   T = n_payload * T_sym   (payload only)
+    checked on the def-chain terms as linear forms (so re-association and re-ordering do not matter) with a single final
+    division: dividing T_sym (or any intermediate) before multiplying truncates and is reported"""
+    bf = c.bf(BBMP + 'time_on_air_us')
+    body = bf.body
+    lenp, prep, hp = param_by_name(body, 'len'), param_by_name(body, 'preamble'), param_by_name(body, 'explicit_header')
+
+    def is_tsym(t):
+        return isinstance(t, tuple) and t[0] == 'field' and t[2] == 't_sym_us'
+
+    def strip_cast(t):
+        while isinstance(t, tuple) and t[0] == 'cast':
+            t = t[2]
+        return t
+    rets = {}
+    for b in body.blocks:
+        if b.cleanup:
+            continue
+        for s_ in b.stmts:
+            if s_.k == 'assign' and s_.lhs.is_local() and s_.lhs.local == 0:
+                t = term_of_operand(bf, s_.rv.ops[0]) if s_.rv.k == 'use' else ((s_.rv.d['op'], term_of_operand(bf, s_.rv.ops[0]), term_of_operand(bf, s_.rv.ops[1])) if s_.rv.k == 'bin' else None)
+                kind = 'preamble' if any(x[0][0] == 'discr' and x[0][1] == ('param', prep) and x[1] in ((1,), ('not', (0,))) for x in rules.path_conditions(bf, b.idx)) else 'payload'
+                rets[kind] = (b.idx, t)
+    if set(rets) != {'preamble', 'payload'}:
+        raise CheckError('time_on_air_us: return expressions not recognised: %s' % sorted(rets))
+    # payload-only: T_sym * n_payload
+    bb, t = rets['payload']
+    np_ = None
+    okp = t is not None and t[0] == 'Mul' and (is_tsym(t[1]) or is_tsym(t[2]))
+    if okp:
+        np_ = strip_cast(t[2] if is_tsym(t[1]) else t[1])
+    # preamble: floor(((4 p + 17 + 4 n_payload) * T_sym) / 4), compared as polynomials over the atoms (so any re-association,
+    # distribution or `integer + floor(x / 4)` split that yields the same value is accepted); a division nested inside a
+    # product is an atom of its own and therefore never matches
+    bb2, t2 = rets['preamble']
+
+    def poly(t):
+        """polynomial {sorted tuple of atoms: coefficient}"""
+        t = strip_cast(t)
+        if not isinstance(t, tuple):
+            return {(t,): 1}
+        h = t[0]
+        if h == 'const':
+            return {(): t[1]} if t[1] else {}
+        if h in ('Add', 'AddWithOverflow', 'Sub', 'SubWithOverflow'):
+            a, b = poly(t[1]), poly(t[2])
+            sgn = 1 if h.startswith('Add') else -1
+            out = dict(a)
+            for m_, c_ in b.items():
+                out[m_] = out.get(m_, 0) + sgn * c_
+            return {m_: c_ for m_, c_ in out.items() if c_}
+        if h in ('Mul', 'MulWithOverflow'):
+            a, b = poly(t[1]), poly(t[2])
+            out = {}
+            for m1, c1 in a.items():
+                for m2, c2 in b.items():
+                    m_ = tuple(sorted(m1 + m2, key=repr))
+                    out[m_] = out.get(m_, 0) + c1 * c2
+            return {m_: c_ for m_, c_ in out.items() if c_}
+        return {(t,): 1}
+
+    def quarters(t):
+        """t = floor(P / 4) + Q  ->  polynomial 4 Q + P, or None"""
+        t0 = strip_cast(t)
+        if isinstance(t0, tuple) and t0[0] == 'Div' and t0[2] == ('const', 4):
+            return poly(t0[1])
+        if isinstance(t0, tuple) and t0[0] in ('Add', 'AddWithOverflow'):
+            for a, b in ((t0[1], t0[2]), (t0[2], t0[1])):
+                qa = quarters(a)
+                if qa is not None and not _has_div(b):
+                    out = dict(qa)
+                    for m_, c_ in poly(b).items():
+                        out[m_] = out.get(m_, 0) + 4 * c_
+                    return {m_: c_ for m_, c_ in out.items() if c_}
+        return None
+
+    def _has_div(t):
+        return flow.term_contains(t, lambda y: isinstance(y, tuple) and y and y[0] in ('Div', 'Rem', 'Shr'))
+    pre = ('field', ('as', ('param', prep), 'Some'), '0')
+    oka = t2 is not None and np_ is not None
+    if oka:
+        got = quarters(t2)
+        tsym = ('field', ('deref', ('param', 1)), 't_sym_us')
+        want = poly(('Mul', ('Add', ('Add', ('Mul', ('const', 4), pre), ('const', 17)), ('Mul', ('const', 4), np_)), tsym))
+        oka = got is not None and got == want
+    res.require(okp and oka, 'C16:time_on_air_us:formula', 'time on air is not n_payload * T_sym resp. ((4 n_preamble + 17 + 4 n_payload) * T_sym) / 4 with one final division: %s | %s' % (
+        term_str(t)[:120] if t else None, term_str(t2)[:160] if t2 else None), short_site(bf, bb2), 'SPEC-SHAPE(time on air, single final division)',
+        instance='T = (4 n_pre + 17 + 4 n_payload) * T_sym / 4 (preamble) and n_payload * T_sym (payload only)')
+    # n_payload = 8 + max(ceil(num / den), 0) * CRdenom
+    okn = np_ is not None and np_[0] == 'Add'
+    if okn:
+        lin, k = rules.linear(np_)
+        okn = k == 8 and len(lin) == 1
+        if okn:
+            prod = list(lin)[0]
+            okn = prod[0] == 'Mul' and lin[prod] == 1
+            if okn:
+                f1, f2 = strip_cast(prod[1]), strip_cast(prod[2])
+                crd = f1 if (isinstance(f1, tuple) and f1[0] == 'call' and f1[1].endswith('CodingRate::denom')) else f2
+                ratio = f2 if crd is f1 else f1
+                okn = isinstance(crd, tuple) and crd[0] == 'call' and crd[1].endswith('CodingRate::denom') and ratio[0] == 'phi'
+                if okn:
+                    defs = rules.defs_with_conditions(bf, ratio[1])
+                    vals = sorted('zero' if v == ('const', 0) else 'ceil' if (v[0] == 'call' and v[1].endswith('div_ceil')) else 'other' for v, cs, b_ in defs)
+                    okn = vals == ['ceil', 'zero'] and all(any(x[0][0] == 'Gt' and x[0][2] == ('const', 0) for x in cs) for v, cs, b_ in defs)
+    res.require(okn, 'C16:time_on_air_us:payload-symbols', 'payload symbol count is not 8 + max(ceil(..), 0) * CR denominator: %s' % (term_str(np_)[:160] if np_ else None), bf.body.path,
+                'SPEC-SHAPE(n_payload)', instance='n_payload = 8 + max(ceil(num / den), 0) * (CR + 4)')
+    dc = [(bb_, t_) for bb_, t_ in bf.calls() if callee_name(t_).endswith('time_on_air_us::div_ceil')]
+    okd = len(dc) == 1
+    if okd:
+        num = rules.linear(term_of_operand(bf, dc[0][1].args[0]))
+        den = rules.linear(term_of_operand(bf, dc[0][1].args[1]))
+
+        def classify(lin):
+            out = {}
+            for a_, c_ in lin.items():
+                a0 = strip_cast(a_)
+                if a0 == ('param', lenp):
+                    out['PL'] = out.get('PL', 0) + c_
+                elif isinstance(a0, tuple) and a0[0] == 'call' and a0[1].endswith('SpreadingFactor::factor'):
+                    out['SF'] = out.get('SF', 0) + c_
+                elif isinstance(a0, tuple) and a0[0] == 'phi':
+                    dl = rules.defs_with_conditions(bf, a0[1])
+                    consts = sorted(v[1] for v, cs, b_ in dl if v[0] == 'const')
+                    sel = set()
+                    for v, cs, b_ in dl:
+                        for x in cs[-1:]:
+                            sel.add('H' if x[0] == ('param', hp) else 'DE' if (isinstance(x[0], tuple) and x[0][0] == 'field' and x[0][2] == 'ldro') else '?')
+                    nm = next(iter(sel)) if len(sel) == 1 and consts == [0, 1] else '?'
+                    # H = 1 for implicit header: value 1 is chosen when explicit_header is false
+                    if nm == 'H':
+                        one = [cs for v, cs, b_ in dl if v == ('const', 1)][0]
+                        if not rules.cond_false(one[-1]):
+                            nm = 'H-inverted'
+                    if nm == 'DE':
+                        one = [cs for v, cs, b_ in dl if v == ('const', 1)][0]
+                        if not rules.cond_true(one[-1]):
+                            nm = 'DE-inverted'
+                    out[nm] = out.get(nm, 0) + c_
+                else:
+                    out['?' + term_str(a0)[:20]] = c_
+            return out
+        okd = (classify(num[0]), num[1]) == ({'PL': 8, 'SF': -4, 'H': -20}, 44) and (classify(den[0]), den[1]) == ({'SF': 4, 'DE': -8}, 0)
+    res.require(okd, 'C16:time_on_air_us:ratio-terms', 'the ceiling division is not (8 PL - 4 SF + 28 + 16 - 20 H) / (4 (SF - 2 DE)) with H = implicit header, DE = low data rate optimisation', bf.body.path,
+                'SPEC-SHAPE(numerator, denominator as linear forms)', instance='ceil((8 PL - 4 SF + 44 - 20 H) / (4 SF - 8 DE)), H = 1 iff implicit header, DE = 1 iff LDRO')
 
 
 def tsym_shape(c, res):
